@@ -79,6 +79,25 @@ def env():
     return e
 
 
+def block_sites(path):
+    """dropped checks: `if COND {` whose body starts with return/continue/break becomes `if false && (COND) {`;
+    dropped statements: a simple assignment or call on a line of its own is deleted"""
+    src = open(os.path.join(REPO, path)).read().split("\n")
+    for i, line in enumerate(src[:-1]):
+        s = line.strip()
+        if s.startswith("//") or "`" in line:
+            continue
+        m = re.match(r"^(\s*)if (.+) \{$", line)
+        if m and not m.group(2).startswith("false") and ";" not in m.group(2):
+            nxt = src[i + 1].strip()
+            if nxt.startswith("return") or nxt in ("continue", "break") or nxt.startswith("goto "):
+                yield i, "drop-check", "%sif false && (%s) {" % (m.group(1), m.group(2))
+        if re.match(r"^\s*[A-Za-z_][\w.\[\]]* (=|\+=|-=|\|=|&\^=) [^{]*$", line) and not s.endswith(","):
+            yield i, "drop-stmt", line[:len(line) - len(line.lstrip())] + "_ = 0 // " + s.replace("//", "")
+        elif re.match(r"^\s*[a-z][\w.]*\([^{]*\)$", line) and not s.startswith(("return", "defer", "go ", "panic", "func")):
+            yield i, "drop-call", line[:len(line) - len(line.lstrip())] + "_ = 0 // " + s.replace("//", "")
+
+
 def sites(path):
     """yield (lineno, opname, newline) for every applicable operator (first match per operator per line)"""
     src = open(os.path.join(REPO, path)).read().split("\n")
@@ -169,6 +188,7 @@ def main():
     ap.add_argument("--seed", default="1")
     ap.add_argument("--out", default=os.path.join(HERE, "automut.results.jsonl"))
     ap.add_argument("--list", action="store_true")
+    ap.add_argument("--blocks", action="store_true", help="use the dropped-check / dropped-statement operators instead of the token operators")
     ap.add_argument("--only", help="comma-separated mutant ids to (re)run even if already in the results file")
     ap.add_argument("--props", help="comma-separated properties to run instead of the file's mapping")
     a = ap.parse_args()
@@ -182,7 +202,7 @@ def main():
                 pass
     todo = []
     for f in files:
-        ss = list(sites(f))
+        ss = list(block_sites(f) if a.blocks else sites(f))
         # deterministic spread over the file
         if len(ss) > a.max_per_file and not a.only:
             step = len(ss) / a.max_per_file
